@@ -83,6 +83,22 @@ func one(t interface{ Fatalf(string, ...any) }, c *Case, run func(func())) {
 func TestC12(t *testing.T) {
 	inBubble := func(f func()) { synctest.Test(t, func(*testing.T) { f() }) }
 	if p := hx.ReplayIn(); p != "" {
+		var probe map[string]interface{}
+		hx.Load(p, &probe)
+		if _, unary := probe["reqKind"]; unary {
+			var u UnaryCase
+			if err := hx.Load(p, &u); err != nil {
+				t.Fatal(err)
+			}
+			u.Failure = ""
+			if f := RunUnary(&u); f != "" {
+				u.Failure = f
+				hx.WriteReplay("C12", &u)
+				t.Fatalf("unary: %s", f)
+			}
+			hx.For("C12").Case(1, nil, true, &u)
+			return
+		}
 		var c Case
 		if err := hx.Load(p, &c); err != nil {
 			t.Fatal(err)
@@ -108,7 +124,7 @@ func TestC12(t *testing.T) {
 			for rk := 0; rk < 3; rk++ {
 				for ek := 0; ek < 3; ek++ {
 					for _, dl := range []bool{false, true} {
-						for nested := 0; nested < 3; nested++ {
+						for nested := 0; nested < 4; nested++ {
 							u := &UnaryCase{Method: m, NOpts: nopts, ReqKind: rk, ErrKind: ek, HasDl: dl, Nested: nested}
 							if f := RunUnary(u); f != "" {
 								u.Failure = f
